@@ -25,7 +25,7 @@ REQUIRED = ["op.add", "op.add-list", "op.add-network", "op.remove_obstacle", "op
             "op.remove_obstacle-stale", "op.remove_lanelet", "op.remove_lanelet-list", "op.remove_lanelet-noref",
             "op.remove_traffic_sign", "op.remove_traffic_sign-list", "op.remove_traffic_light",
             "op.remove_traffic_light-list", "op.remove_intersection", "op.remove_intersection-list",
-            "op.replace_lanelet_network", "op.erase_lanelet_network", "op.generate_object_id", "collision-predicted",
+            "op.replace_lanelet_network", "op.replace_lanelet_network.rejected", "op.erase_lanelet_network", "op.generate_object_id", "collision-predicted",
             "re-add-after-removal", "hooked-state-checked", "nonpositive-ids", "op.remove-stale.lanelet",
             "op.remove-stale.sign", "op.remove-stale.intersection", "network-with-duplicate-ids", "lanelet-with-references-to-no-sign-or-light",
             "op.remove-twin.sign", "op.remove-twin.light", "op.remove-twin.static"]
@@ -33,7 +33,7 @@ EXHAUSTIVE = {"quick": "all operation sequences of length <= 2 over the fixed 26
               "thorough": "all operation sequences of length <= 4 over the fixed 26-operation alphabet"}
 ASSUMPTIONS = ["atomicity of list adds beyond the failing element is not demanded (elements before it stay added)",
                "a network is added with add_objects only while the scenario's network is empty; "
-               "replace_lanelet_network is only issued with networks that do not collide with contained obstacles"]
+               "a replacement network that cannot be taken (id of a contained obstacle, inconsistent in itself) is rejected with ValueError and leaves the scenario, old network included, unchanged"]
 SHARDS = {"quick": 2, "thorough": 16}
 
 
@@ -382,13 +382,27 @@ def run(ctx):
                 elif op == "replace":
                     nid = U.net_ids(arg)
                     obst = {i for i, k in m.ids.items() if k in ("static", "dynamic", "phantom", "environment")}
-                    if any(i in obst for _, i in nid):
-                        continue
-                    ctx.feature("op.replace_lanelet_network")
-                    net = U.make_net(arg)
-                    sc.replace_lanelet_network(net)
-                    model_erase(m, live, removed_once)
-                    self_add_net(m, U, arg, live, net)
+                    all_ids = [i for _, i in nid]
+                    if any(i in obst for _, i in nid) or len(set(all_ids)) != len(all_ids):
+                        # the new network cannot be taken (one of its ids belongs to a contained obstacle, or it is
+                        # inconsistent in itself): ValueError, and the scenario -- old network included -- is as before
+                        ctx.feature("op.replace_lanelet_network.rejected")
+                        exp_exc = True
+                        net = U.make_net(arg)
+                        try:
+                            sc.replace_lanelet_network(net)
+                            raised = None
+                        except ValueError as e:
+                            raised = e
+                        if raised is None:
+                            ctx.violation("C09/replace_lanelet_network/colliding-network-accepted", "ids %s" % sorted(all_ids), wit)
+                            return
+                    else:
+                        ctx.feature("op.replace_lanelet_network")
+                        net = U.make_net(arg)
+                        sc.replace_lanelet_network(net)
+                        model_erase(m, live, removed_once)
+                        self_add_net(m, U, arg, live, net)
                 elif op == "erase":
                     ctx.feature("op.erase_lanelet_network")
                     sc.erase_lanelet_network()
@@ -409,6 +423,10 @@ def run(ctx):
                 return
             # --------------------------------------------------------------------------------- observation
             after = observable(sc)
+            if exp_exc and after != before and op == "replace":
+                ctx.violation("C09/replace_lanelet_network/rejected-replacement-changed-the-scenario",
+                              "before %s after %s" % (before, after), wit)
+                return
             if exp_exc and after != before:
                 ctx.violation("C09/add_objects/rejected-add-changed-the-scenario", "before %s after %s" % (before, after), wit)
                 return
@@ -564,7 +582,7 @@ def run(ctx):
                          U.spec[x][0] in ("static", "dynamic", "phantom", "environment"))]
                 hist.append(("remove-list", tuple(sorted(set(rng.sample(same, min(len(same), rng.randint(1, 2))))))))
             elif c < 0.80:
-                hist.append(("replace", rng.choice(["N1", "N2"])))
+                hist.append(("replace", rng.choice(["N1", "N2", "N2", "N3"])))
             elif c < 0.84:
                 hist.append(("erase", None))
             elif c < 0.90:
